@@ -64,6 +64,7 @@ class Zoo:
         self.cls = {}       # name -> class
         self.tables = {}    # name -> Table
         self.rels = {}      # (owner class name, rel name) -> RelInfo
+        self.view_rels = {}  # (owner, name) -> RelInfo of viewonly relationships (not in .rels)
         self.cols = {}      # class name -> [column attribute names]  (own + inherited)
         self.knobs = {}
         self.e_kind = None
@@ -200,7 +201,14 @@ def build_zoo(rng, knobs=None):
             "A", "es", "E", True, [[(te.c.ename, 0), (te.c.id, 0)], [(te.c.id, 1)]],
             direction="o2m", fk_table="e", fk_col="a_id")),
         "expr": orm.query_expression(),
+        # read-only views over rows that other, writable relationships change
+        "hot_bs": orm.relationship(
+            B, primaryjoin=sa.and_(ta.c.id == tb.c.a_id, tb.c.pos >= 2), viewonly=True,
+            order_by=tb.c.id, lazy="select"),
     }
+    z.view_rels[("A", "hot_bs")] = RelInfo(owner="A", name="hot_bs", target="B", uselist=True, total=True,
+                                           order=[("id", False)], coll="list", lazy="select", direction="o2m",
+                                           fk_table="b", fk_col="a_id")
     if knob("defer_note", [False, True]):
         a_props["note"] = orm.deferred(ta.c.note, group="g")
     reg.map_imperatively(A, ta, properties=a_props)
@@ -220,7 +228,14 @@ def build_zoo(rng, knobs=None):
         "owners": orm.relationship(A, secondary=tat, back_populates="tags", **relkw(
             "T", "owners", "A", True, [[(ta.c.id, 1)], [(ta.c.grp, 0), (ta.c.id, 0)]],
             direction="m2m", secondary=("a_t", "t_id", "a_id"))),
+        "big_owners": orm.relationship(
+            A, secondary=tat, primaryjoin=tt.c.id == tat.c.t_id,
+            secondaryjoin=sa.and_(ta.c.id == tat.c.a_id, ta.c.grp >= 1), viewonly=True,
+            order_by=ta.c.id, lazy="select"),
     })
+    z.view_rels[("T", "big_owners")] = RelInfo(owner="T", name="big_owners", target="A", uselist=True, total=True,
+                                               order=[("id", False)], coll="list", lazy="select", direction="m2m",
+                                               secondary=("a_t", "t_id", "a_id"))
     reg.map_imperatively(P, tp, properties={
         "a": orm.relationship(A, back_populates="profile", **relkw(
             "P", "a", "A", False, direction="m2o", fk_table="p", fk_col="a_id")),
@@ -528,6 +543,7 @@ class Hierarchy:
         self.owner_table = None
         self.knobs = {}
         self.pjoin = None
+        self.disc_type = "str"
 
     def node(self, name):
         return next(n for n in self.nodes if n.name == name)
@@ -602,6 +618,18 @@ def build_hierarchy(rng, kind, shape=None, knobs=None):
         h.nodes.append(n)
     h.root = h.nodes[0]
     I, S = sa.Integer, sa.String
+    # discriminator values: strings (sometimes with "" for one subclass) or integers
+    # (0 is then some class's identity) - falsy identities are valid identities
+    disc = knob("disc_type", ["str", "str", "int"]) if kind != "concrete" else "str"
+    h.disc_type = disc
+    if disc == "int":
+        ids = list(range(len(h.nodes)))
+        rng.shuffle(ids)
+        for n, i in zip(h.nodes, ids):
+            n.ident = i
+    elif kind != "concrete" and len(h.nodes) > 1 and rng.random() < 0.6:
+        rng.choice(h.nodes[1:]).ident = ""
+    DT = I if disc == "int" else S(10)
 
     def attr_cols(n):
         return [sa.Column(a, I if a.endswith("_v") else S(20)) for a in n.own_attrs]
@@ -621,7 +649,7 @@ def build_hierarchy(rng, kind, shape=None, knobs=None):
         # tables
         root.table = sa.Table(root.name.lower(), md, sa.Column("id", I, primary_key=True),
                               sa.Column("o_id", sa.ForeignKey("o.id"), nullable=True),
-                              sa.Column("kind", S(10), nullable=False), *attr_cols(root))
+                              sa.Column("kind", DT, nullable=False), *attr_cols(root))
         for n in h.nodes[1:]:
             if n.storage == "joined":
                 # the table a joined subclass hangs from is the nearest ancestor table
@@ -720,11 +748,53 @@ def gen_hier_population(h, rng, scale=1):
     return {"owners": n_owner, "rows": rows}
 
 
+def add_late_subclass(h, rng):
+    """Map one more single-table subclass *after* the hierarchy has been configured and
+    used (a plugin / lazily imported module).  It stores onto its parent's table, adds no
+    column, and prefers a parent that is itself at depth >= 2.  Returns the new node, or
+    None for concrete hierarchies."""
+    from sqlalchemy import orm  # noqa: F401
+
+    if h.kind == "concrete":
+        return None
+    deep = [n for n in h.nodes if n.depth >= 2]
+    mid = [n for n in h.nodes if n.depth >= 1]
+    parent = rng.choice(deep or mid or h.nodes)
+    name = "L%d" % len(h.nodes)
+    n = HNode(name, parent, "single")
+    n.own_attrs = []
+    n.table = parent.table
+    if h.disc_type == "int":
+        n.ident = max(m.ident for m in h.nodes if isinstance(m.ident, int)) + 1
+    n.cls = _mk(name, (parent.cls,))
+    parent.children.append(n)
+    h.nodes.append(n)
+    h.reg.map_imperatively(n.cls, None, inherits=parent.cls, polymorphic_identity=n.ident)
+    h.reg.configure()
+    return n
+
+
+def gen_late_rows(h, node, pop, rng):
+    nid = max([r["id"] for r in pop["rows"]] + [0]) + 1
+    rows = []
+    for k in range(rng.randint(1, 3)):
+        r = {"cls": node.name, "id": nid + k, "o_id": rng.choice([None] + list(range(1, pop["owners"] + 1)))}
+        for a in node.all_attrs():
+            r[a] = rng.choice([None, 0, 1, 7]) if a.endswith("_v") else rng.choice(["p", "q", None])
+        rows.append(r)
+    return rows
+
+
 def write_hier_population(h, pop, engine):
     h.md.create_all(engine)
     with engine.begin() as conn:
         conn.execute(h.owner_table.insert(), [{"id": i} for i in range(1, pop["owners"] + 1)])
-        for r in pop["rows"]:
+    write_hier_rows(h, pop["rows"], engine)
+
+
+def write_hier_rows(h, rows, engine):
+    with engine.begin() as conn:
+        for r in rows:
             n = h.node(r["cls"])
             if h.kind == "concrete":
                 conn.execute(n.table.insert(), {k: v for k, v in r.items() if k not in ("cls", "o_id")})
